@@ -180,6 +180,11 @@ class FileCache:
         None
         """
         with self.file_futures_lock:
+            info = self.file_futures.get(file_name)
+            if info is not None and not info[-1].done():
+                # still being loaded or written: there is nothing cached to unload yet, and the
+                # task needs its entry (and its memory claim has not been accounted for)
+                return
             self.file_access_times = [(t, fn) for t, fn in self.file_access_times if fn != file_name]
             heapq.heapify(self.file_access_times)
             self._unload_file(file_name)
